@@ -3,6 +3,7 @@ package harness
 import (
 	"encoding/json"
 	"fmt"
+	"math"
 	"time"
 
 	otter "github.com/maypok86/otter/v2"
@@ -111,6 +112,60 @@ func c18Explore(res *Result, raw json.RawMessage, job *Job) {
 	}()
 
 	switch p.Mode {
+	case "keytypes":
+		// key types whose equality is not bitwise (+0.0 == -0.0 is one key): every sequence of recordings up to a length
+		// over {+0.0, -0.0, 1.5, 2.5}; the estimate of a key is at least the number of recordings of keys equal to it
+		negZero := math.Copysign(0, -1)
+		alpha := []float64{0, negZero, 1.5, 2.5}
+		names := []string{"+0.0", "-0.0", "1.5", "2.5"}
+		for ci, capa := range p.Caps {
+			if job.Shards > 1 && ci%job.Shards != job.Shard {
+				continue
+			}
+			var rec func(seq []int)
+			rec = func(seq []int) {
+				if len(seq) > 0 {
+					keys := make([]float64, len(seq))
+					var desc []string
+					for i, a := range seq {
+						keys[i] = alpha[a]
+						desc = append(desc, names[a])
+					}
+					for ai, ask := range alpha {
+						want := uint64(0)
+						for _, k := range keys {
+							if k == ask {
+								want++
+							}
+						}
+						if want > 15 {
+							want = 15
+						}
+						got, ok := otter.VerifSketchFloatProbe(capa, keys, ask)
+						res.Executions++
+						Progress.Add(1)
+						if !ok {
+							res.Counters["keytype-probe-unavailable"]++
+							return
+						}
+						res.Counters["keytype-probes"]++
+						if got < want {
+							fail("under-count", "frequency", desc, "capacity %d: after recording %v the estimate of %s is %d, but keys equal to it were recorded %d times (+0.0 and -0.0 are one key)", capa, desc, names[ai], got, want)
+						}
+						if got > 15 {
+							fail("over-15", "frequency", desc, "capacity %d: estimate %d exceeds 15", capa, got)
+						}
+					}
+				}
+				if len(seq) == p.MaxLen {
+					return
+				}
+				for a := range alpha {
+					rec(append(append([]int(nil), seq...), a))
+				}
+			}
+			rec(nil)
+		}
 	case "increments", "long":
 		for ci, capa := range p.Caps {
 			if job.Shards > 1 && ci%job.Shards != job.Shard {
